@@ -166,6 +166,19 @@ def cases(pid, obs):
                 out.append("41 %d %d 0" % (k, ip4(by[a]["yiaddr"])))        # no ACK at all: not the offered address either
     if pid == "C17" and "ra" in obs and "plan" in obs["ra"]:
         out += ra_cases(obs["ra"])
+    if pid == "C12":
+        # every reply of the dhcpflow exchanges (incl. renewals with ciaddr set, with and without the broadcast flag)
+        for st in flow.get("steps", []):
+            r = st["reply"]
+            if r is not None:
+                out.append("6 %d 1 %d %d %s %s" % (st["flags"], ip4(r["yiaddr"]), ip4(r["dst_ip"]), mac(r["dst_mac"]), mac(st["mac"])))
+    if pid == "C12" and "dhcp" in obs:
+        # kind 7: the whole frame as captured on the wire: prl_requested frame-octets
+        for o in obs["dhcp"].get("offers", []):
+            r = o["reply"]
+            if r is not None and "frame" in r:
+                fb = bytes.fromhex(r["frame"])
+                out.append("7 %d %d %s" % (o.get("prl", 0), len(fb), " ".join(str(b) for b in fb)))
     if pid == "C12" and "dhcp" in obs:
         # kind 6: flags got yiaddr dst_ip dst_mac*6 req_mac*6
         for o in obs["dhcp"].get("offers", []):
